@@ -1056,7 +1056,7 @@ func (ws *wsConn) Read(p []byte) (n int, err error) {
 	n = copy(p, ws.buf[ws.r:])
 	ws.r += n
 	// reset reader buffer
-	if ws.r+1 >= len(ws.buf) {
+	if ws.r >= len(ws.buf) {
 		ws.buf = nil
 		ws.r = 0
 	}
